@@ -5,6 +5,7 @@ CONSTANTS
   Caps = {0, 1}
   MaxItems = 4
   Cons = {1, 2, 3}
-INVARIANTS TypeOK WTypeOK Conservation LanesSorted ClearedIsFinal NoStranded NothingLeftBeside
+  Prods = {1, 2}
+INVARIANTS TypeOK WTypeOK Conservation LanesSorted ClearedIsFinal NoStranded NoStrandedProducer NothingLeftBeside
 VIEW WView
 CHECK_DEADLOCK FALSE
